@@ -56,7 +56,7 @@ def handleConcTable (line : String) : M Unit := do
   if !translationOk then
     mismatch "conc:table" "translate/locktable understands mappollard.go" translationError
   else if !(LockDiscipline table allMethods) then
-    mismatch "conc:table" "LockDiscipline table = true"
+    mismatch "conc:table" "LockDiscipline table = true (theorem UtreexoVerif.Props.C12Table.lockTable_ok)"
       s!"methods violating the lock discipline (with the lock contexts they can run in): {lockOffenders}"
 
 /-- the queries of the property text: all of them depend on the mutable state -/
